@@ -394,9 +394,11 @@ func (w *World) Converged() (bool, string) {
 	return true, ""
 }
 
+// oversized: the target does not fit into an EMPTY shard. Placement keeps the load strictly below each
+// limit (C04), so a target whose size equals a limit fits nowhere either.
 func (w *World) oversized(t *T) bool {
 	o := w.Cfg.Opt
-	return (o.MaxHead != 0 && int64(t.Kept) > o.MaxHead) || int64(t.Kept) > o.MaxProc || int64(t.Total) > o.MaxProc
+	return (o.MaxHead != 0 && int64(t.Kept) >= o.MaxHead) || int64(t.Kept) >= o.MaxProc || int64(t.Total) >= o.MaxProc
 }
 
 // Eligible: discovered, probed healthy, fits a shard.
